@@ -376,7 +376,7 @@ class Gen:
 
 def read_sessions(tier, seed):
     rng = random.Random(seed)
-    n_graphs = 12 if tier == "quick" else 150
+    n_graphs = 12 if tier == "quick" else 80
     per = 25 if tier == "quick" else 40
     sessions = []
     for g in range(n_graphs):
@@ -476,7 +476,7 @@ def lookup_cases(cid0, indexed):
 def index_sessions(tier, seed):
     rng = random.Random(seed)
     sessions = []
-    n_hist = 6 if tier == "quick" else 60
+    n_hist = 6 if tier == "quick" else 24
     for h in range(n_hist):
         steps = []
         n_nodes = 0
@@ -587,7 +587,7 @@ LIM_QUERIES = [
 def limit_sessions(tier, seed):
     rng = random.Random(seed)
     cases = []
-    reps = 1 if tier == "quick" else 6
+    reps = 1 if tier == "quick" else 3
     cid = 0
     for rep in range(reps):
         for q, params in LIM_QUERIES:
@@ -805,7 +805,7 @@ class UGen(Gen):
 
 def update_sessions(tier, seed):
     rng = random.Random(seed)
-    n_sess = 10 if tier == "quick" else 120
+    n_sess = 10 if tier == "quick" else 60
     per = 14 if tier == "quick" else 20
     sessions = []
     for g in range(n_sess):
@@ -1166,7 +1166,7 @@ def parity_sessions(tier, seed):
             c["cparams"] = {"a": 1, "b": [1.5, "x", None], "c": {"k": [1, {"z": True}]}}
         cases.append(c)
     sessions.append({"id": "capi/parity-values", "api": "c", "twin": True, "setup": CAPI_SETUP, "cases": cases})
-    n_graphs = 4 if tier == "quick" else 40
+    n_graphs = 4 if tier == "quick" else 20
     for g in range(n_graphs):
         setup = gen_graph(rng, ["plain", "parallel", "loops", "plain"][g % 4])
         setup = [x for x in setup if not x.startswith("#")]
